@@ -60,12 +60,12 @@ structure PVal (q : Core.Prog) (A : Core.Term) (ρ : CEnv) (n : Nat) (Φ : CVal 
   nonvar : A.isVar = false → PEval q A ρ n Φ ∧ PEval q A ρ (n + 1) Φ
 
 /-- `core_operand` for a producer with a value -/
-theorem core_operand' (hq : q.codataTypes = []) {A : Core.Term} {ρ : CEnv} {n : Nat}
+theorem core_operand' {A : Core.Term} {ρ : CEnv} {n : Nat}
     {Φ : CVal → Prop} (hA : PVal q A ρ n Φ) (Sx : Core.Term → Core.Stmt) (out : Out)
     (hsp : A.isVar = false → (Sx A).split = some (.prd, A, Sx)) :
     ∃ i ρ' n' z ty V, CSteps q ⟨Sx A, ρ, out, n⟩ ⟨Sx (.var .prd z ty), ρ', out, n'⟩ i ∧ n ≤ n' ∧
       SigExt n ρ ρ' ∧ Core.Env.lookup ρ' z = .ok V ∧ Φ V ∧ (z.name = sig → z.id < n') :=
-  core_operand hq Sx out
+  core_operand Sx out
     (fun pc z ty e => by
       obtain ⟨h1, h2, h3⟩ := hA.var pc z ty e
       exact ⟨h1, fun e' => absurd e' h2, h3⟩)
@@ -75,7 +75,7 @@ theorem core_operand' (hq : q.codataTypes = []) {A : Core.Term} {ρ : CEnv} {n :
 def IsInt (x : BitVec 64) (V : CVal) : Prop := V = .int x
 
 /-- both operands of an operator are evaluated, left to right -/
-theorem core_op_operands (hq : q.codataTypes = []) {A B : Core.Term} {o : Core.BinOp} {ρ : CEnv}
+theorem core_op_operands {A B : Core.Term} {o : Core.BinOp} {ρ : CEnv}
     {n : Nat} {x y : BitVec 64}
     (hA : PVal q A ρ n (IsInt x))
     (hB : ∀ ρ' n', SigExt n ρ ρ' → n ≤ n' → PVal q B ρ' n' (IsInt y))
@@ -84,16 +84,16 @@ theorem core_op_operands (hq : q.codataTypes = []) {A B : Core.Term} {o : Core.B
         ⟨.cut cty (.op (.var .prd z1 t1) o (.var .prd z2 t2)) c, ρ', out, n'⟩ i ∧ n ≤ n' ∧
       SigExt n ρ ρ' ∧ Core.Env.lookup ρ' z1 = .ok (.int x) ∧ Core.Env.lookup ρ' z2 = .ok (.int y) := by
   obtain ⟨i1, ρ1, n1, z1, t1, V1, s1, hn1, e1, l1, rfl, b1⟩ :=
-    core_operand' hq hA (fun h => .cut cty (.op h o B) c) out (fun hnv => split_cut_op1 hnv hc)
+    core_operand' hA (fun h => .cut cty (.op h o B) c) out (fun hnv => split_cut_op1 hnv hc)
   obtain ⟨i2, ρ2, n2, z2, t2, V2, s2, hn2, e2, l2, rfl, b2⟩ :=
-    core_operand' hq (hB ρ1 n1 e1 hn1) (fun h => .cut cty (.op (.var .prd z1 t1) o h) c) out
+    core_operand' (hB ρ1 n1 e1 hn1) (fun h => .cut cty (.op (.var .prd z1 t1) o h) c) out
       (fun hnv => split_cut_op2 rfl hnv hc)
   refine ⟨i1 + i2, ρ2, n2, z1, t1, z2, t2, s1.trans s2, by omega, e1.trans e2 hn1, ?_, l2⟩
   rw [e2.lookup z1 b1]
   exact l1
 
 /-- the value of an operator applied to producers with integer values -/
-theorem peval_op (hq : q.codataTypes = []) {A B : Core.Term} {o : Fun.BinOp} {ρ : CEnv}
+theorem peval_op {A B : Core.Term} {o : Fun.BinOp} {ρ : CEnv}
     {n : Nat} {x y r : BitVec 64}
     (hA : PVal q A ρ n (IsInt x))
     (hB : ∀ ρ' n', SigExt n ρ ρ' → n ≤ n' → PVal q B ρ' n' (IsInt y))
@@ -101,7 +101,7 @@ theorem peval_op (hq : q.codataTypes = []) {A B : Core.Term} {o : Fun.BinOp} {ρ
     PEval q (.op A (compileOp o) B) ρ n (IsInt r) := by
   intro c cty out hc
   obtain ⟨i, ρ', n', z1, t1, z2, t2, hs, hn, he, l1, l2⟩ :=
-    core_op_operands hq hA hB c cty out hc
+    core_op_operands hA hB c cty out hc
   refine ⟨i, ρ', n', _, .int r, hs, hn, he, rfl, ?_, rfl⟩
   simp [Core.prdVal, lookupInt_of_lookup l1, lookupInt_of_lookup l2, arith_compile, har]
 
